@@ -45,3 +45,114 @@ pub proof fn lemma_rep3_from_parts(seq: Seq<u8>, p: int, k: int, u: ${W}, m: u8,
     lemma_codes_sub(seq, p, p + k, 0, h);
     lemma_codes_sub(seq, p, p + k, h + 1, k);
 }
+
+impl<'a> SplitKmer<'a> {
+    spec fn h(&self) -> int { (self.k - 1) / 2 }
+    spec fn strict(&self) -> bool { self.qual_filter == QualFilter::Strict }
+    // start of the current window
+    spec fn p(&self) -> int { self.index - (self.k - 1) }
+    // the current window as 2-bit codes
+    spec fn win(&self) -> Seq<u8> { codes(self.seq@.subrange(self.p(), self.p() + self.k)) }
+    spec fn wok(&self, q: int) -> bool {
+        window_ok(self.seq@, self.qual, self.strict(), self.min_qual, q, self.k as int)
+    }
+
+    spec fn params_ok(&self) -> bool {
+        &&& 5 <= self.k <= ${KMAX} && self.k % 2 == 1
+        &&& self.lower_mask == mask(self.k - 1)
+        &&& self.upper_mask == mask(self.k - 1) << ((self.k - 1) as ${W})
+        &&& self.seq_len == self.seq@.len()
+        &&& self.seq_len < usize::MAX - 64
+        &&& qual_wf(self.qual, self.seq_len as int)
+        &&& (self.hash_gen.is_some() ==> self.hash_gen.unwrap().k == self.k && self.hash_gen.unwrap().rh.is_some() == self.rc)
+    }
+
+    spec fn rep_fwd(&self, c: Seq<u8>) -> bool { rep3(self.upper, self.middle_base, self.lower, c, self.k as int) }
+    spec fn rep_rc(&self, c: Seq<u8>) -> bool { rep3(self.rc_upper, self.rc_middle_base, self.rc_lower, rcc(c), self.k as int) }
+
+    // everything but the reverse-complement fields is consistent
+    spec fn pre_inv(&self) -> bool {
+        &&& self.params_ok()
+        &&& self.k - 1 <= self.index < self.seq_len
+        &&& self.wok(self.p())
+        &&& self.rep_fwd(self.win())
+    }
+
+    // the struct invariant between calls
+    spec fn inv(&self) -> bool {
+        &&& self.pre_inv()
+        &&& (self.rc ==> self.rep_rc(self.win()))
+    }
+
+    // the input and the parameters never change
+    spec fn same_input(&self, o: &Self) -> bool {
+        &&& self.k == o.k && self.upper_mask == o.upper_mask && self.lower_mask == o.lower_mask
+        &&& self.seq@ == o.seq@ && self.seq_len == o.seq_len && self.qual == o.qual
+        &&& self.qual_filter == o.qual_filter && self.min_qual == o.min_qual && self.rc == o.rc
+    }
+}
+
+pub open spec fn fwd_val(c: Seq<u8>) -> ${W} {
+    let h = (c.len() - 1) / 2;
+    (pack(c.subrange(0, h)) << ((2 * h) as ${W})) | pack(c.subrange(h + 1, c.len() as int))
+}
+
+// canonical (k-mer, middle base, was-reverse-complemented) of a code window — "the lower-ordered
+// orientation", ties keep the forward strand
+pub open spec fn canon(c: Seq<u8>, rc: bool) -> (${W}, u8, bool) {
+    let h = (c.len() - 1) / 2;
+    if rc && fwd_val(c) > fwd_val(rcc(c)) { (fwd_val(rcc(c)), rcc(c)[h], true) } else { (fwd_val(c), c[h], false) }
+}
+
+pub open spec fn palin(c: Seq<u8>) -> bool {
+    let h = (c.len() - 1) / 2;
+    pack(c.subrange(0, h)) == pack(rcc(c).subrange(0, h)) && pack(c.subrange(h + 1, c.len() as int)) == pack(rcc(c).subrange(h + 1, c.len() as int))
+}
+
+pub proof fn lemma_palin(c: Seq<u8>, u: ${W}, l: ${W}, ru: ${W}, rl: ${W})
+    requires
+        c.len() % 2 == 1, 5 <= c.len() <= ${KMAX}, codes_ok(c),
+        u == pack(c.subrange(0, (c.len() - 1) / 2)) << ((2 * ((c.len() - 1) / 2)) as ${W}),
+        l == pack(c.subrange((c.len() - 1) / 2 + 1, c.len() as int)),
+        ru == pack(rcc(c).subrange(0, (c.len() - 1) / 2)) << ((2 * ((c.len() - 1) / 2)) as ${W}),
+        rl == pack(rcc(c).subrange((c.len() - 1) / 2 + 1, c.len() as int)),
+    ensures (u == ru && l == rl) == palin(c)
+{
+    let h = (c.len() - 1) / 2;
+    let a = pack(c.subrange(0, h));
+    let b = pack(rcc(c).subrange(0, h));
+    lemma_rcc_codes_ok(c);
+    lemma_pack_bound(c.subrange(0, h));
+    lemma_pack_bound(rcc(c).subrange(0, h));
+    let hh = (2 * h) as ${W};
+    let mk = ((1${W} << hh) - 1) as ${W};
+    assert(mask(2 * h) == mk);
+    assert((a << hh == b << hh) == (a == b)) by(bit_vector)
+        requires a & !mk == 0, b & !mk == 0, mk == ((1${W} << hh) - 1) as ${W}, 4 <= hh <= ${HB};
+}
+
+pub proof fn lemma_rcc_codes_ok(c: Seq<u8>)
+    requires codes_ok(c)
+    ensures codes_ok(rcc(c)), rcc(c).len() == c.len()
+{
+    assert forall|i: int| 0 <= i < rcc(c).len() implies #[trigger] rcc(c)[i] < 4 by {
+        let x = c[c.len() - 1 - i];
+        assert(x < 4 ==> x ^ 2 < 4) by(bit_vector);
+    }
+}
+
+// the base that leaves the window when it rolls: the top code of the upper half
+pub proof fn lemma_old_base(u: ${W}, h: int)
+    requires 2 <= h <= ${HMAX}, u & !mask(2 * h) == 0
+    ensures
+        (((u << ((2 * h) as ${W})) >> ((2 * (2 * h + 1 - 2)) as ${W})) as u8) < 4,
+        (((u << ((2 * h) as ${W})) >> ((2 * (2 * h + 1 - 2)) as ${W})) as u8) == ((u >> ((2 * (h - 1)) as ${W})) & 3),
+{
+    let hh = (2 * h) as ${W};
+    let s = (2 * (2 * h + 1 - 2)) as ${W};
+    let t = (2 * (h - 1)) as ${W};
+    let mk = ((1${W} << hh) - 1) as ${W};
+    assert(mask(2 * h) == mk);
+    assert((((u << hh) >> s) as u8) < 4 && (((u << hh) >> s) as u8) == ((u >> t) & 3)) by(bit_vector)
+        requires u & !mk == 0, mk == ((1${W} << hh) - 1) as ${W}, 4 <= hh <= ${HB}, s == 2 * hh - 2, t == hh - 2;
+}
